@@ -165,11 +165,51 @@ func numberFormatRule(p *core.Program, r *core.Report, rule string, entry *ssa.F
 			outer, inner = cc, in
 		}
 	}
+	// the two trims may live in a helper of the package that does nothing else: trim(s) = TrimRight(TrimRight(s, "0"), ".")
+	helperOrder := ""
+	if outer == nil {
+		for _, c := range eng.Calls(fn) {
+			cc, ok := c.(*ssa.Call)
+			if !ok {
+				continue
+			}
+			h := cc.Call.StaticCallee()
+			if h == nil || h.Pkg != fn.Pkg || len(h.Blocks) != 1 || len(h.Params) != 1 {
+				continue
+			}
+			ret, ok := h.Blocks[0].Instrs[len(h.Blocks[0].Instrs)-1].(*ssa.Return)
+			if !ok || len(ret.Results) != 1 {
+				continue
+			}
+			ho, ok := ret.Results[0].(*ssa.Call)
+			if !ok || eng.CalleeObj(ho) == nil || eng.CalleeObj(ho).Name() != "TrimRight" {
+				continue
+			}
+			hi, ok := ho.Call.Args[0].(*ssa.Call)
+			if !ok || eng.CalleeObj(hi) == nil || eng.CalleeObj(hi).Name() != "TrimRight" || hi.Call.Args[0] != ssa.Value(h.Params[0]) {
+				continue
+			}
+			str := func(c *ssa.Call) string {
+				if k, ok := c.Call.Args[1].(*ssa.Const); ok && k.Value != nil && k.Value.Kind() == constant.String {
+					return constant.StringVal(k.Value)
+				}
+				return "?"
+			}
+			outer, inner, helperOrder = cc, hi, str(hi)+"|"+str(ho)
+		}
+	}
 	if outer == nil {
 		r.Bad(rule, key+"/trim", p.Pos(fn.Pos()), "no TrimRight(TrimRight(s, \"0\"), \".\") after formatting: trailing zeros are kept")
 		return
 	}
 	cut := func(c *ssa.Call) string {
+		if helperOrder != "" {
+			parts := strings.SplitN(helperOrder, "|", 2)
+			if c == inner {
+				return parts[0]
+			}
+			return parts[1]
+		}
 		if k, ok := c.Call.Args[1].(*ssa.Const); ok && k.Value != nil && k.Value.Kind() == constant.String {
 			return constant.StringVal(k.Value)
 		}
@@ -673,11 +713,20 @@ func c18(p *core.Program, r *core.Report) {
 		numberFormatRule(p, r, r2, fn, "AppendFloat", "maxDecimalDigits")
 		// recursion over every element: loop bounded by val.Len(), recursive call on val.Index(i)
 		rec := false
+		// directly, or through the functions of the package the handler splits its cases into
+		scope := []*ssa.Function{fn}
 		for _, c := range eng.Calls(fn) {
-			if c.Common().StaticCallee() == fn {
-				for _, a := range c.Common().Args {
-					if idx, ok := a.(*ssa.Call); ok && eng.CalleeObj(idx) != nil && eng.CalleeObj(idx).Name() == "Index" {
-						rec = true
+			if h := eng.StaticCallee(c); h != nil && h != fn && h.Pkg == fn.Pkg && len(h.Blocks) > 0 {
+				scope = append(scope, h)
+			}
+		}
+		for _, g := range scope {
+			for _, c := range eng.Calls(g) {
+				if c.Common().StaticCallee() == fn {
+					for _, a := range c.Common().Args {
+						if idx, ok := a.(*ssa.Call); ok && eng.CalleeObj(idx) != nil && eng.CalleeObj(idx).Name() == "Index" {
+							rec = true
+						}
 					}
 				}
 			}
